@@ -84,7 +84,7 @@ def get_node_repr(node):
         "%s=%s" % (param, arg) for param, arg in zip(params, key)
     )
 
-    if key in obj.data:
+    if obj.has_node(key):
         return name + "(" + arglist + ")" + "=" + str(obj.data[key])
     else:
         return name + "(" + arglist + ")"
